@@ -209,6 +209,7 @@ def world_from_pool(pool):
     w.O, w.L, w.LAW = pool["O"], pool["L"], pool["LAW"]
     w.nl, w.bv, w.bu = pool["nl"], pool["bv"], pool["bu"]
     w.extra_links = []
+    w.link_kw = {}
     from edgegraph.structure import Vertex
     w.vertex_cls = Vertex
     w._index()
@@ -328,6 +329,49 @@ def deep_chain(n, limit, kind="chain"):
         err = type(exc).__name__
     finally:
         sys.setrecursionlimit(old)
+    return err, ok
+
+
+def _slotted_classes():
+    from edgegraph.structure import Vertex, Universe
+
+    global SlottedVertex, SlottedUniverse
+    if "SlottedVertex" not in globals():
+        class SlottedVertex(Vertex):
+            """user data kept in slots as well as in attributes"""
+            __slots__ = ("rank", "tags")
+
+        class SlottedUniverse(Universe):
+            __slots__ = ("title",)
+        SlottedVertex.__qualname__ = "SlottedVertex"
+        SlottedUniverse.__qualname__ = "SlottedUniverse"
+        globals()["SlottedVertex"], globals()["SlottedUniverse"] = SlottedVertex, SlottedUniverse
+    return globals()["SlottedVertex"], globals()["SlottedUniverse"]
+
+
+def slotted_case(protocol, loader="pickle"):
+    """instances of Vertex / Universe subclasses that keep data in __slots__ (protocol >= 2: pickle itself refuses such
+    classes below that); returns (err, ok)"""
+    from edgegraph.builder import explicit
+    from edgegraph.output import nrpickler
+    SV, SU = _slotted_classes()
+    vs = [SV(attributes={"i": i}) for i in range(3)]
+    for i, v in enumerate(vs):
+        v.rank = i * 10
+        v.tags = ["t", i]
+    u = SU(vertices=vs)
+    u.title = "slotted"
+    explicit.link_directed(vs[0], vs[1])
+    explicit.link_undirected(vs[1], vs[2])
+    err, ok = "", False
+    try:
+        u2 = (pickle.loads if loader == "pickle" else dill.loads)(nrpickler.dumps(u, protocol=protocol))
+        vs2 = u2.vertices
+        ok = (type(u2) is SU and getattr(u2, "title", None) == "slotted" and [type(v) for v in vs2] == [SV] * 3
+              and [getattr(v, "rank", None) for v in vs2] == [0, 10, 20] and [getattr(v, "tags", None) for v in vs2] == [["t", 0], ["t", 1], ["t", 2]]
+              and [v.i for v in vs2] == [0, 1, 2] and [len(v.links) for v in vs2] == [1, 2, 1])
+    except Exception as exc:    # noqa: BLE001
+        err = type(exc).__name__
     return err, ok
 
 
